@@ -237,6 +237,17 @@ class H3c(Case):
         d = 2
         I1 = 1j if inp.mode == "real" else _i()
         half = 0.5 if inp.mode == "real" else _half()
+        if self.term == "full2":
+            ch = oqupy.SystemChain([d, d])
+            Ls = [inp.arr("L%d" % k, (d * d, d * d)) for k in range(2)]
+            N0 = inp.arr("N0", (d ** 4, d ** 4))
+            for k in range(2):
+                ch.add_site_liouvillian(k, Ls[k])
+            ch.add_nn_liouvillian(0, N0)
+            full = ch.get_nn_full_liouvillians()
+            idm = np.identity(d * d)
+            return [Ob.holds("one bond", len(full) == 1),
+                    Ob.eq("single bond carries both site terms with weight 1", full[0], np.kron(Ls[0], idm) + np.kron(idm, Ls[1]) + N0)]
         if self.term == "full3":
             ch = oqupy.SystemChain([d, d, d])
             Ls = [inp.arr("L%d" % k, (d * d, d * d)) for k in range(3)]
@@ -324,7 +335,7 @@ def cases(tier):
           H1("pt", 3, 1, True), H1("pt", 3, None), H1("pt", 2, 2), H1("pt", 4, 2),
           H1("mf", 3, 1), H1("mf", 3, None), H1("mf", 4, 2, True),
           H2("tempo", 2, 1), H2("pt", 2, 1), H2("tempo", 2, None),
-          H3(2, 1), H3(2, 2), H3(3, 1), H3c("site"), H3c("nn_ham"), H3c("nn_diss"), H3c("full3"), H5(2), H5(3)]
+          H3(2, 1), H3(2, 2), H3(3, 1), H3c("site"), H3c("nn_ham"), H3c("nn_diss"), H3c("full3"), H3c("full2"), H5(2), H5(3)]
     if tier == "thorough":
         cs += [H1("tempo", 5, 2, True), H1("pt", 5, 2, True), H1("mf", 5, 3), H1("tempo", 2, 1, d=3), H1("pt", 2, 1, d=3),
                H2("tempo", 3, 1), H2("pt", 3, 1), H2("pt", 3, None), H2("tempo", 3, 2), H3(3, 2)]
